@@ -761,7 +761,8 @@ where
                 let threads: u32 = tok[2].parse().unwrap();
                 let mut rng = Rng::new(tok[3].parse().unwrap());
                 let order: Vec<VarNo> = tok[4..].iter().map(|t| t.parse().unwrap()).collect();
-                let n = 2 * pairs;
+                // two more variables (2*pairs, 2*pairs+1) that the function does not use: levels without nodes
+                let n = 2 * pairs + 2;
                 let mref = F::new_mgr(1 << 22, 1 << 16, threads).ok_or("skip")?;
                 mref.with_manager_exclusive(|m| m.add_vars(n));
                 let f: F = mref.with_manager_shared(|m| {
@@ -773,7 +774,9 @@ where
                     Ok::<F, String>(acc)
                 })?;
                 let nodes = f.node_count();
-                let samples: Vec<Vec<bool>> = (0..64).map(|_| (0..n).map(|_| rng.next() & 1 == 1).collect()).collect();
+                // 256 sampled assignments with each variable true with probability 1/5 (the function is then true
+                // for about half of them; uniform samples would nearly all satisfy it)
+                let samples: Vec<Vec<bool>> = (0..256).map(|_| (0..n).map(|_| rng.next() % 5 == 0).collect()).collect();
                 let ev = |f: &F| -> Vec<bool> {
                     samples.iter().map(|a| f.eval(a.iter().enumerate().map(|(v, b)| (v as VarNo, *b)))).collect()
                 };
